@@ -544,7 +544,8 @@ def run_stream(ctx, profile: StreamProfile, monitors, case_timeout=30):
 
     signal.signal(signal.SIGALRM, on_alarm)
     nprog = 0
-    while nprog < profile.nprograms and not ctx.out_of_time():
+    cap = min(profile.nprograms, int(ctx.params.get("nprograms", 10**9)))
+    while nprog < cap and not ctx.out_of_time():
         nprog += 1
         rng = random.Random((ctx.seed * 1000003 + ctx.shard * 7919 + nprog * 104729) & 0xFFFFFFFF)
         ctx.rng = rng
